@@ -109,6 +109,14 @@ CLAIMED = {
          "is written only by reviewed functions. The interleaving space as a whole is not explored (that is model checking).",
          "Trusted: rustc MIR of async bodies; tokio Notify / crossbeam-channel contracts; SeqCst.",
          "DESIGN.md §3 C24"),
+ "C25": ("E-MIR", "other", "path-value provenance (shared lock path vs sibling) and dominance rules on file-system effects in PidFileLocking: atomic publish, guarded check-then-delete, takeover under the same advisory lock; caller rules for forc-fmt and the LSP",
+         "Decides the atomicity rules whose violation loses a running process's flag under a concrete interleaving (both reproduced on the "
+         "pristine tree and fixed): the lock file is never created/truncated and written in place but published by renaming a fully written sibling; "
+         "a file found stale is removed only under the exclusive advisory lock after re-reading it, and lock() takes a lock over under the same advisory "
+         "lock; unparsable files are only removed by cleanup (safe given atomic publish); forc-fmt asks is_file_dirty before writing and bails out; the "
+         "LSP sets the flag on didChange and clears it on didSave. One reviewed residual: release() racing a lock() of another LSP instance on the same file.",
+         "Trusted: rustc MIR; rename(2) atomicity; fd-lock advisory locks; no PID reuse while a file is examined.",
+         "DESIGN.md §9"),
  "C29": ("E-TAB+E-MIR", "other", "finite-domain abstract evaluation of TestResult::passed over its syntax tree (4 expectations x 8 final states, exact for every case the code can distinguish); MIR provenance rules for per-test setup, storage cloning and reported fields",
          "Decides: the pass/fail verdict equals the stated table on a finite domain that separates ShouldRevert(Some c) / ShouldRevert(None) / "
          "ShouldNotRevert and Revert(c) / Revert(c') / non-revert states; every test's executor receives a TestSetup produced inside the per-test "
